@@ -131,3 +131,85 @@ def lin : GraphDef Nat :=
 example : (run natOps (compile 10 lin) 1).okVal? = some 2 := by decide
 
 end EinoV.C01
+
+/-! ## last clause: a chain is sequential function composition of its stages, with parallel
+    stages merged by key  (model: EinoV/Model/C01Chain.lean, proofs: EinoV/Proofs/C01Chain.lean) -/
+
+namespace EinoV.C01
+open EinoV.Engine EinoV.Gen EinoV.Chain
+
+/-- **chain_is_composition.** For every chain `Compile` accepts (`Chain.WF`: not empty; every
+    parallel/branch stage has ≥ 2 members with distinct keys and does not directly follow
+    another parallel/branch stage; `graph.addNode` saw no duplicate node key), all stage
+    functions (arbitrary, possibly failing; a nested graph or chain is just such a function —
+    `subgraph_transparent`, `chain_as_stage`) and every input: running the graph that chain.go
+    builds (`lower`: nodes `node_i`, `node_i_parallel_j`, `node_i_branch_key`; an edge from every
+    previous-stage node; `WithOutputKey` wrappers; the GraphBranch with key translation; the END
+    edges) on the engine, with the default step limit, returns exactly `Chain.sem`: the
+    composition of the stage functions, a parallel stage being the keyed map of its members'
+    results (fan-in by `mergeMap`), a branch stage the member its condition selects — or the
+    same error, attributed to the same node key. -/
+theorem chain_is_composition (c : Chain) (h : c.WF) (x : CVal) :
+    (run cvalOps (compile FactsC01.stepSlack (lower c)) x).result = c.sem x :=
+  Chain.chain_is_composition FactsC01.stepSlack c h x
+
+/-- **chain_never_hits_limit.** The default step limit of a compiled chain is at least its
+    number of stages (one superstep per stage), whatever the slack found in the source. -/
+theorem chain_never_hits_limit (c : Chain) (h : c.WF) :
+    c.length ≤ (compile FactsC01.stepSlack (lower c)).maxSteps :=
+  Chain.chain_stages_le_limit FactsC01.stepSlack c h
+
+/-- **chain_nested.** A compiled chain appended to another chain (`AppendGraph(chain)`) can be
+    replaced by the stage whose function is the inner chain's meaning. -/
+theorem chain_nested (c' : Chain) (h : c'.WF) (pre post : Chain) (x : CVal)
+    (hw : (pre ++ Stage.lambda (c'.exec FactsC01.stepSlack) :: post).WF) :
+    (run cvalOps (compile FactsC01.stepSlack (lower (pre ++ Stage.lambda (c'.exec FactsC01.stepSlack) :: post))) x).result
+      = (pre ++ Stage.lambda c'.sem :: post).sem x := by
+  rw [chain_is_composition _ hw, Chain.chain_as_stage FactsC01.stepSlack c' h]
+
+/-! ### non-vacuity -/
+
+def tagF (s : String) : Fn := fun v =>
+  match v with
+  | .map kvs => .ok (.map (kvs ++ [(s, .leaf "x")]))
+  | .leaf _ => .error { cls := .user 1 }
+
+def failF : Fn := fun _ => .error { cls := .user 7 }
+
+def pickF : CVal → Except Err String
+  | .map kvs => .ok (if kvs.length % 2 == 0 then "l" else "r")
+  | .leaf _ => .ok "zz"
+
+/-- lambda, parallel (fan-out, fan-in by key), passthrough, branch, lambda -/
+def exChain : Chain :=
+  [.lambda (tagF "a"), .parallel [("p", tagF "b"), ("q", tagF "c")], .passthrough,
+   .branch pickF [("l", tagF "d"), ("r", tagF "e")], .lambda (tagF "f")]
+
+theorem exChain_wf : exChain.WF := ⟨by simp [exChain], by decide, by decide⟩
+
+/-- the keys are the ones chain.go generates -/
+example : lowerKeys exChain =
+    ["node_0", "node_1_parallel_0", "node_1_parallel_1", "node_2", "node_3_branch_l", "node_3_branch_r", "node_4"] := by
+  decide
+
+def cvalKeys : CVal → List String
+  | .map kvs => kvs.map (·.1)
+  | .leaf _ => []
+
+/-- the run succeeds, passes through the parallel merge and the selected branch member -/
+example : ((run cvalOps (compile 10 (lower exChain)) (.map [])).okVal?.map cvalKeys) = some ["p", "q", "d", "f"] := by
+  decide
+example : ((exChain.sem (.map [])).toOption.map cvalKeys) = some ["p", "q", "d", "f"] := by decide
+
+/-- a failing parallel member fails the chain, attributed to that member's node -/
+def exFail : Chain := [.lambda (tagF "a"), .parallel [("p", tagF "b"), ("q", failF)], .lambda (tagF "z")]
+theorem exFail_wf : exFail.WF := ⟨by simp [exFail], by decide, by decide⟩
+example : (match exFail.sem (.map []) with | .error e => some (e.cls, e.path) | .ok _ => none)
+    = some (.user 7, ["node_1_parallel_1"]) := by decide
+
+/-- the hypotheses matter: two parallel stages in a row are not a legal chain (chain.go rejects
+    "multiple previous nodes"); in the lowered graph only the first member would be connected -/
+example : stagesOK false [.parallel [("p", tagF "b"), ("q", tagF "c")], .parallel [("r", tagF "b"), ("s", tagF "c")]] = false := by
+  decide
+
+end EinoV.C01
